@@ -5,3 +5,4 @@ open GoMail.Props.C07
 #print axioms plain_refuses_cleartext
 #print axioms login_refuses_cleartext
 #print axioms mandatory_without_starttls_sends_nothing
+#print axioms localhost_is_exactly_three_names
